@@ -78,171 +78,214 @@ Proof. induction 1; simpl; try lia. Qed.
 Lemma decode_all_app a b : decode_all (a ++ b) = decode_all a ++ decode_all b.
 Proof. unfold decode_all. apply flat_map_app. Qed.
 
-(* ---------------------------------------------------------------- null masks *)
-
-Definition no_nulls (nulls : list bool) : Prop := forallb negb nulls = true.
-
-Lemma no_nulls_hd nulls : no_nulls nulls -> hd false nulls = false.
-Proof. destruct nulls as [|b r]; simpl; [reflexivity|]. unfold no_nulls. simpl. destruct b; simpl; [discriminate | reflexivity]. Qed.
-
-Lemma no_nulls_tl nulls : no_nulls nulls -> no_nulls (tl nulls).
-Proof. destruct nulls as [|b r]; simpl; [trivial|]. unfold no_nulls. simpl. intro H. apply andb_true_iff in H. apply H. Qed.
-
-Lemma dec_str_nonull vals : forall nulls, no_nulls nulls -> dec_str vals nulls = map VStr vals.
-Proof.
-  induction vals as [|s r IH]; intros nulls H; simpl; [reflexivity|].
-  rewrite (no_nulls_hd _ H), (IH _ (no_nulls_tl _ H)). reflexivity.
-Qed.
-
-Lemma dec_const_nonull v n : forall nulls, no_nulls nulls -> dec_const v n nulls = repeat (cval_value v) n.
-Proof.
-  induction n as [|m IH]; intros nulls H; simpl; [reflexivity|].
-  rewrite (no_nulls_hd _ H), (IH _ (no_nulls_tl _ H)). reflexivity.
-Qed.
-
 (* ---------------------------------------------------------------- CountByString *)
 
 (* the rows a leg emits report, for every key, its number of occurrences *)
 Definition inv (st : cbstate) (vals : list value) : Prop :=
   forall v, row_count st v = occ v vals.
 
-(* The class of columns on which the operator is right.  [pre] = the values
-   the leg has consumed before this column.
-   - plain string vectors and string constants without nulls;
-   - string dictionaries without nulls that satisfy the VNG dictionary
-     invariant (distinct entries, counts = occurrences) AND none of whose
-     entries has been seen before by this leg (countDict assigns). *)
-Definition dict_ok (pre : list value) (e : list bytes) (cnt : list Z) (dec : list value) : Prop :=
-  NoDup e /\ List.length cnt = List.length e /\
-  (forall v, In v dec -> exists s, In s e /\ v = VStr s) /\
-  (forall k, (k < List.length e)%nat -> nth k cnt 0 = occ (VStr (nth k e [])) dec) /\
-  (forall s, In s e -> occ (VStr s) pre = 0).
-
-Definition good_col (pre : list value) (c : col) : Prop :=
+(* The class of columns on which the operator is right: every vector kind a
+   string-typed field can have -- plain string vectors, string constants and
+   string dictionaries satisfying the VNG dictionary invariant [col_wfb]
+   (distinct entries, tags in range, counts = number of non-null slots per
+   tag) -- each with ANY null mask. *)
+Definition good_col (c : col) : Prop :=
   match c with
-  | CStr _ nulls => no_nulls nulls
-  | CConst (KStr _) _ nulls => no_nulls nulls
-  | CDictStr e cnt idx nulls => dict_ok pre e cnt (decode c)
+  | CStr _ _ => True
+  | CConst (KStr _) _ _ => True
+  | CDictStr _ _ _ _ => col_wfb c = true
   | _ => False
   end.
 
-Fixpoint good_cols (pre : list value) (cols : list col) : Prop :=
-  match cols with
-  | [] => True
-  | c :: r => good_col pre c /\ good_cols (pre ++ decode c) r
-  end.
-
-Lemma fold_add_get k vals : forall T,
-  tbl_get k (fold_left (fun t s => tbl_add s 1 t) vals T) = tbl_get k T + occ (VStr k) (map VStr vals).
+Lemma inv_add_str st pre s :
+  inv st pre -> inv (mkcb (tbl_add s 1 (cb_tbl st)) (cb_nulls st)) (pre ++ [VStr s]).
 Proof.
-  induction vals as [|s r IH]; intro T; simpl; [lia|].
-  rewrite IH, tbl_get_add. destruct (bytes_eqb k s); lia.
+  intros Hinv v. rewrite occ_app. specialize (Hinv v). destruct v; simpl in *; try lia.
+  rewrite tbl_get_add, Hinv. destruct (bytes_eqb s0 s); lia.
 Qed.
 
-Lemma occ_map_VStr_other v vals : (forall s, v <> VStr s) -> occ v (map VStr vals) = 0.
+Lemma inv_add_null st pre :
+  inv st pre -> inv (mkcb (cb_tbl st) (cb_nulls st + 1)) (pre ++ [VNullStr]).
 Proof.
-  intro H. apply occ_zero. intros x Hx. apply in_map_iff in Hx. destruct Hx as [s [Hs _]].
-  subst. intro E. apply (H s). symmetry. exact E.
+  intros Hinv v. rewrite occ_app. specialize (Hinv v). destruct v; simpl in *; lia.
 Qed.
 
-Lemma step_plain st pre vals :
-  inv st pre -> inv (count_plain vals st) (pre ++ map VStr vals).
+Lemma step_plain vals : forall nulls st pre,
+  inv st pre -> inv (count_plain vals nulls st) (pre ++ dec_str vals nulls).
 Proof.
-  intros Hinv v. rewrite occ_app. specialize (Hinv v).
+  induction vals as [|s r IH]; intros nulls st pre Hinv; simpl.
+  - rewrite app_nil_r. exact Hinv.
+  - replace (pre ++ (if hd false nulls then VNullStr else VStr s) :: dec_str r (tl nulls))
+      with ((pre ++ [if hd false nulls then VNullStr else VStr s]) ++ dec_str r (tl nulls))
+      by (rewrite <- app_assoc; reflexivity).
+    apply IH. destruct (hd false nulls); [apply inv_add_null | apply inv_add_str]; exact Hinv.
+Qed.
+
+Lemma nullcount_nonneg n : forall nulls, 0 <= nullcount n nulls.
+Proof. induction n as [|m IH]; intro nulls; simpl; [lia|]. specialize (IH (tl nulls)). destruct (hd false nulls); lia. Qed.
+
+Lemma occ_dec_const_str k s n : forall nulls,
+  occ (VStr k) (dec_const (KStr s) n nulls) =
+  if bytes_eqb k s then Z.of_nat n - nullcount n nulls else 0.
+Proof.
+  induction n as [|m IH]; intro nulls; simpl dec_const; simpl nullcount.
+  - simpl. destruct (bytes_eqb k s); reflexivity.
+  - rewrite Nat2Z.inj_succ. destruct (hd false nulls); cbn -[Z.add Z.sub Z.of_nat]; rewrite IH;
+      destruct (bytes_eqb k s); lia.
+Qed.
+
+Lemma occ_dec_const_null s n : forall nulls,
+  occ VNullStr (dec_const (KStr s) n nulls) = nullcount n nulls.
+Proof.
+  induction n as [|m IH]; intro nulls; [reflexivity|].
+  cbn -[Z.add Z.sub Z.of_nat]. destruct (hd false nulls); cbn -[Z.add Z.sub Z.of_nat]; rewrite IH; lia.
+Qed.
+
+Lemma dec_const_str_in s n : forall nulls v,
+  In v (dec_const (KStr s) n nulls) -> v = VStr s \/ v = VNullStr.
+Proof.
+  induction n as [|m IH]; intros nulls v H; simpl in H; [contradiction|].
+  destruct H as [H | H]; [|exact (IH _ _ H)].
+  destruct (hd false nulls); simpl in H; subst; auto.
+Qed.
+
+Lemma step_const_str st pre s n nulls :
+  inv st pre -> inv (count_fixed (KStr s) n nulls st) (pre ++ dec_const (KStr s) n nulls).
+Proof.
+  intros Hinv v. rewrite occ_app. pose proof (Hinv v) as Hv.
+  assert (Hother : forall w, w <> VNullStr -> (forall s0, w <> VStr s0) -> occ w (dec_const (KStr s) n nulls) = 0).
+  { intros w H1 H2. apply occ_zero. intros x Hx. destruct (dec_const_str_in _ _ _ _ Hx); subst; auto. }
   destruct v; simpl in *;
-    try (rewrite occ_map_VStr_other by (intros s0 E; discriminate); lia).
-  rewrite fold_add_get, Hinv. reflexivity.
+    try (rewrite Hother by (try discriminate; intros s0 E; discriminate); lia).
+  - rewrite tbl_get_add, (occ_dec_const_str s0 s n nulls), Hv. reflexivity.
+  - rewrite (occ_dec_const_null s n nulls), Hv. reflexivity.
 Qed.
 
-Lemma occ_repeat_str k s n :
-  occ (VStr k) (repeat (VStr s) n) = if bytes_eqb k s then Z.of_nat n else 0.
-Proof.
-  induction n as [|m IH]; simpl repeat; simpl occ.
-  - destruct (bytes_eqb k s); reflexivity.
-  - rewrite IH. destruct (bytes_eqb k s); lia.
-Qed.
-
-Lemma step_const_str st pre s n :
-  inv st pre -> inv (count_fixed (KStr s) n st) (pre ++ repeat (VStr s) n).
-Proof.
-  intros Hinv v. rewrite occ_app. specialize (Hinv v).
-  assert (Hother : forall w, (forall s0, w <> VStr s0) -> occ w (repeat (VStr s) n) = 0).
-  { intros w Hw. apply occ_zero. intros x Hx. apply repeat_spec in Hx. subst. intro E. apply (Hw s). symmetry. exact E. }
-  destruct v; simpl in *;
-    try (rewrite Hother by (intros s0 E; discriminate); lia).
-  rewrite tbl_get_add, occ_repeat_str, Hinv. reflexivity.
-Qed.
-
-Lemma fold_set_notin k e : forall cnt T, ~ In k e ->
-  tbl_get k (fold_left (fun t '(s, c) => tbl_set s c t) (combine e cnt) T) = tbl_get k T.
+Lemma fold_add_notin k e : forall cnt T, ~ In k e ->
+  tbl_get k (fold_left (fun t '(s, c) => tbl_add s c t) (combine e cnt) T) = tbl_get k T.
 Proof.
   induction e as [|s e' IH]; intros cnt T Hn; simpl; [reflexivity|].
   destruct cnt as [|c cnt']; simpl; [reflexivity|].
   rewrite IH by (intro H; apply Hn; right; exact H).
-  apply tbl_get_set_other. intro E. apply Hn. left. symmetry. exact E.
+  rewrite tbl_get_add. rewrite bytes_eqb_false; [lia|].
+  intro E. apply Hn. left. symmetry. exact E.
 Qed.
 
-Lemma fold_set_nth e : forall cnt T i, NoDup e -> List.length cnt = List.length e -> (i < List.length e)%nat ->
-  tbl_get (nth i e []) (fold_left (fun t '(s, c) => tbl_set s c t) (combine e cnt) T) = nth i cnt 0.
+Lemma fold_add_nth e : forall cnt T i, NoDup e -> List.length cnt = List.length e -> (i < List.length e)%nat ->
+  tbl_get (nth i e []) (fold_left (fun t '(s, c) => tbl_add s c t) (combine e cnt) T) =
+  tbl_get (nth i e []) T + nth i cnt 0.
 Proof.
   induction e as [|s e' IH]; intros cnt T i Hnd Hlen Hi; simpl in Hi; [lia|].
   destruct cnt as [|c cnt']; simpl in Hlen; [lia|].
   inversion Hnd as [|? ? Hnotin Hnd']; subst.
   destruct i as [|j]; simpl.
-  - rewrite fold_set_notin by exact Hnotin. apply tbl_get_set_same.
-  - apply IH; [exact Hnd' | lia | lia].
+  - rewrite fold_add_notin by exact Hnotin. rewrite tbl_get_add, bytes_eqb_refl. reflexivity.
+  - rewrite IH; [|exact Hnd' | lia | lia]. rewrite tbl_get_add.
+    rewrite bytes_eqb_false; [lia|]. intro E. apply Hnotin. rewrite <- E. apply nth_In. lia.
 Qed.
 
-Lemma step_dict st pre e cnt dec :
-  inv st pre -> dict_ok pre e cnt dec -> inv (count_dict e cnt st) (pre ++ dec).
+Lemma nodupb_NoDup e : nodupb e = true -> NoDup e.
 Proof.
-  intros Hinv (Hnd & Hlen & Hvals & Hcnt & Hfresh) v. rewrite occ_app.
-  assert (Hother : forall w, (forall s0, w <> VStr s0) -> occ w dec = 0).
-  { intros w Hw. apply occ_zero. intros x Hx. destruct (Hvals x Hx) as [s0 [_ E]]. subst.
-    intro E'. apply (Hw s0). symmetry. exact E'. }
-  pose proof (Hinv v) as Hv.
+  induction e as [|x r IH]; simpl; intro H; [constructor|].
+  apply andb_true_iff in H. destruct H as [H1 H2]. constructor; [|apply IH; exact H2].
+  intro Hin. apply negb_true_iff in H1.
+  assert (existsb (bytes_eqb x) r = true) as E; [|rewrite E in H1; discriminate].
+  apply existsb_exists. exists x. split; [exact Hin | apply bytes_eqb_refl].
+Qed.
+
+Lemma dec_dict_in e idx : forall nulls,
+  forallb (fun i => Nat.ltb i (List.length e)) idx = true ->
+  forall v, In v (dec_dict_str e idx nulls) -> v = VNullStr \/ exists s, In s e /\ v = VStr s.
+Proof.
+  induction idx as [|i r IH]; intros nulls Hlt v Hin; simpl in *; [contradiction|].
+  apply andb_true_iff in Hlt. destruct Hlt as [Hi Hr].
+  destruct Hin as [E | Hin]; [|exact (IH _ Hr v Hin)].
+  destruct (hd false nulls); [left; symmetry; exact E|].
+  right. exists (nth i e []). split; [|symmetry; exact E]. apply nth_In. apply Nat.ltb_lt. exact Hi.
+Qed.
+
+Lemma tag_occ e k : NoDup e -> (k < List.length e)%nat ->
+  forall idx nulls,
+  forallb (fun i => Nat.ltb i (List.length e)) idx = true ->
+  tagcount k idx nulls = occ (VStr (nth k e [])) (dec_dict_str e idx nulls).
+Proof.
+  intros Hnd Hk. induction idx as [|i r IH]; intros nulls Hlt; simpl; [reflexivity|].
+  apply andb_true_iff in Hlt. destruct Hlt as [Hi Hr]. apply Nat.ltb_lt in Hi.
+  rewrite (IH _ Hr). f_equal.
+  destruct (hd false nulls); simpl; [reflexivity|].
+  destruct (Nat.eqb i k) eqn:E.
+  - apply Nat.eqb_eq in E. subst. rewrite bytes_eqb_refl. reflexivity.
+  - apply Nat.eqb_neq in E. rewrite bytes_eqb_false; [reflexivity|].
+    intro Heq. apply E. symmetry. apply (proj1 (NoDup_nth e []) Hnd k i Hk Hi Heq).
+Qed.
+
+Lemma occ_dec_dict_null e idx : forall nulls,
+  occ VNullStr (dec_dict_str e idx nulls) = nullcount (List.length idx) nulls.
+Proof.
+  induction idx as [|i r IH]; intro nulls; [reflexivity|].
+  cbn -[Z.add Z.sub Z.of_nat]. destruct (hd false nulls); cbn -[Z.add Z.sub Z.of_nat]; rewrite IH; lia.
+Qed.
+
+Lemma step_dict st pre e cnt idx nulls :
+  inv st pre -> col_wfb (CDictStr e cnt idx nulls) = true ->
+  inv (count_dict e cnt (List.length idx) nulls st) (pre ++ dec_dict_str e idx nulls).
+Proof.
+  intros Hinv Hwf v. simpl in Hwf.
+  apply andb_true_iff in Hwf. destruct Hwf as [Hnd Hc]. unfold counts_okb in Hc.
+  apply andb_true_iff in Hc. destruct Hc as [Hc Hcnt].
+  apply andb_true_iff in Hc. destruct Hc as [Hlen Hlt].
+  apply nodupb_NoDup in Hnd. apply Nat.eqb_eq in Hlen.
+  rewrite occ_app. pose proof (Hinv v) as Hv.
+  assert (Hother : forall w, w <> VNullStr -> (forall s0, w <> VStr s0) -> occ w (dec_dict_str e idx nulls) = 0).
+  { intros w H1 H2. apply occ_zero. intros x Hx.
+    destruct (dec_dict_in e idx nulls Hlt x Hx) as [E | [s0 [_ E]]]; subst; auto. }
   destruct v; simpl in *;
-    try (rewrite Hother by (intros s0 E; discriminate); lia).
-  destruct (in_dec (list_eq_dec N.eq_dec) s e) as [Hin | Hnin].
-  - destruct (In_nth _ _ [] Hin) as [i [Hi Hnth]].
-    subst s. rewrite fold_set_nth by assumption.
-    rewrite (Hcnt i Hi). rewrite (Hfresh _ Hin). reflexivity.
-  - rewrite fold_set_notin by exact Hnin. rewrite Hv.
-    assert (occ (VStr s) dec = 0) as ->; [|lia].
-    apply occ_zero. intros x Hx. destruct (Hvals x Hx) as [s0 [Hs0 E]]. subst.
-    intro E'. inversion E'. subst. contradiction.
+    try (rewrite Hother by (try discriminate; intros s0 E; discriminate); lia).
+  - destruct (in_dec (list_eq_dec N.eq_dec) s e) as [Hin | Hnin].
+    + destruct (In_nth _ _ [] Hin) as [i [Hi Hnth]]. subst s.
+      rewrite fold_add_nth by assumption. rewrite Hv.
+      rewrite <- (tag_occ e i Hnd Hi idx nulls Hlt).
+      rewrite forallb_forall in Hcnt.
+      assert (Hin' : In i (seq 0 (List.length e))) by (apply in_seq; split; [apply Nat.le_0_l | simpl; exact Hi]).
+      specialize (Hcnt i Hin'). apply Z.eqb_eq in Hcnt. rewrite Hcnt. reflexivity.
+    + rewrite fold_add_notin by exact Hnin. rewrite Hv.
+      assert (occ (VStr s) (dec_dict_str e idx nulls) = 0) as ->; [|lia].
+      apply occ_zero. intros x Hx.
+      destruct (dec_dict_in e idx nulls Hlt x Hx) as [E | [s0 [Hs0 E]]]; subst; [discriminate|].
+      intro E'. inversion E'. subst. contradiction.
+  - rewrite occ_dec_dict_null, Hv. reflexivity.
 Qed.
 
 Lemma step_good st pre c :
-  inv st pre -> good_col pre c ->
+  inv st pre -> good_col c ->
   exists st', cb_update st c = Some st' /\ inv st' (pre ++ decode c).
 Proof.
   intros Hinv Hg. destruct c; simpl in Hg; try contradiction.
-  - eexists. split; [reflexivity|]. simpl. rewrite dec_str_nonull by exact Hg.
-    apply step_plain. exact Hinv.
-  - eexists. split; [reflexivity|]. apply step_dict; assumption.
+  - eexists. split; [reflexivity|]. simpl. apply step_plain. exact Hinv.
+  - eexists. split; [reflexivity|]. simpl decode. apply step_dict; assumption.
   - destruct v; try contradiction.
-    eexists. split; [reflexivity|]. simpl decode. rewrite dec_const_nonull by exact Hg.
-    simpl cval_value. apply step_const_str. exact Hinv.
+    eexists. split; [reflexivity|]. simpl decode. apply step_const_str. exact Hinv.
 Qed.
 
 Lemma run_agrees cols : forall st pre,
-  inv st pre -> good_cols pre cols ->
+  inv st pre -> Forall good_col cols ->
   exists st', cb_run st cols = Some st' /\ inv st' (pre ++ decode_all cols).
 Proof.
   induction cols as [|c r IH]; intros st pre Hinv Hg; simpl.
   - exists st. split; [reflexivity|]. rewrite app_nil_r. exact Hinv.
-  - destruct Hg as [Hc Hr].
+  - inversion Hg as [|? ? Hc Hr]; subst.
     destruct (step_good st pre c Hinv Hc) as [st1 [Hu Hinv1]].
     rewrite Hu. destruct (IH st1 (pre ++ decode c) Hinv1 Hr) as [st2 [Hrun Hinv2]].
     exists st2. split; [exact Hrun|]. unfold decode_all in *. simpl. rewrite app_assoc. exact Hinv2.
 Qed.
 
-(* count() by <field>: on the good class the vector operator does not panic and
-   reports, for EVERY value, exactly its number of occurrences in the data
-   (so in particular no row for absent values and for nulls). *)
+(* count() by <field>: whenever the field is string-typed in every record
+   (null strings included), for any number of objects and record types, the
+   vector operator does not panic and reports, for EVERY value, exactly its
+   number of occurrences in the data (in particular a null(string) row with
+   the number of nulls and no row for absent values). *)
 Theorem count_by_agrees : forall cols,
-  good_cols [] cols ->
+  Forall good_col cols ->
   exists st, v_count_by cols = Some st /\
              forall v, row_count st v = occ v (decode_all cols).
 Proof.
@@ -263,7 +306,7 @@ Fixpoint legs_total (legs : list (list col)) (v : value) : Z :=
   end.
 
 Theorem count_by_legs_compose : forall legs,
-  Forall (good_cols []) legs ->
+  Forall (Forall good_col) legs ->
   Forall (fun leg => v_count_by leg <> None) legs /\
   forall v, legs_total legs v = occ v (decode_all (List.concat legs)).
 Proof.
@@ -278,7 +321,7 @@ Qed.
 (* Adding/removing vector copies or redistributing the objects over the legs
    does not change the answer: it only depends on the multiset of values. *)
 Theorem count_by_vectors_irrelevant : forall legs seqvals,
-  Forall (good_cols []) legs ->
+  Forall (Forall good_col) legs ->
   Permutation seqvals (decode_all (List.concat legs)) ->
   forall v, legs_total legs v = occ v seqvals.
 Proof.
@@ -286,97 +329,22 @@ Proof.
   rewrite (proj2 (count_by_legs_compose legs Hg)). symmetry. apply occ_perm. exact Hp.
 Qed.
 
-(* The dictionary hypotheses follow from the syntactic invariant [col_wfb]
-   that the correspondence check evaluates on every real dictionary vector. *)
-Lemma nodupb_NoDup e : nodupb e = true -> NoDup e.
-Proof.
-  induction e as [|x r IH]; simpl; intro H; [constructor|].
-  apply andb_true_iff in H. destruct H as [H1 H2]. constructor; [|apply IH; exact H2].
-  intro Hin. apply negb_true_iff in H1.
-  assert (existsb (bytes_eqb x) r = true) as E; [|rewrite E in H1; discriminate].
-  apply existsb_exists. exists x. split; [exact Hin | apply bytes_eqb_refl].
-Qed.
-
-Lemma dec_dict_in e idx : forall nulls, no_nulls nulls ->
-  forallb (fun i => Nat.ltb i (List.length e)) idx = true ->
-  forall v, In v (dec_dict_str e idx nulls) -> exists s, In s e /\ v = VStr s.
-Proof.
-  induction idx as [|i r IH]; intros nulls Hn Hlt v Hin; simpl in *; [contradiction|].
-  apply andb_true_iff in Hlt. destruct Hlt as [Hi Hr].
-  rewrite (no_nulls_hd _ Hn) in Hin. destruct Hin as [E | Hin].
-  - exists (nth i e []). split; [|symmetry; exact E]. apply nth_In. apply Nat.ltb_lt. exact Hi.
-  - apply (IH _ (no_nulls_tl _ Hn) Hr v Hin).
-Qed.
-
-Lemma tag_occ e k : NoDup e -> (k < List.length e)%nat ->
-  forall idx nulls, no_nulls nulls ->
-  forallb (fun i => Nat.ltb i (List.length e)) idx = true ->
-  tagcount k idx nulls = occ (VStr (nth k e [])) (dec_dict_str e idx nulls).
-Proof.
-  intros Hnd Hk. induction idx as [|i r IH]; intros nulls Hn Hlt; simpl; [reflexivity|].
-  apply andb_true_iff in Hlt. destruct Hlt as [Hi Hr]. apply Nat.ltb_lt in Hi.
-  rewrite (no_nulls_hd _ Hn). simpl negb. simpl andb.
-  rewrite (IH _ (no_nulls_tl _ Hn) Hr). f_equal. simpl value_eqb.
-  destruct (Nat.eqb i k) eqn:E.
-  - apply Nat.eqb_eq in E. subst. rewrite bytes_eqb_refl. reflexivity.
-  - apply Nat.eqb_neq in E. rewrite bytes_eqb_false; [reflexivity|].
-    intro Heq. apply E. symmetry. apply (proj1 (NoDup_nth e []) Hnd k i Hk Hi Heq).
-Qed.
-
-Theorem good_dict_from_wfb : forall pre e cnt idx nulls,
-  col_wfb (CDictStr e cnt idx nulls) = true -> no_nulls nulls ->
-  (forall s, In s e -> occ (VStr s) pre = 0) ->
-  good_col pre (CDictStr e cnt idx nulls).
-Proof.
-  intros pre e cnt idx nulls Hwf Hn Hfresh. simpl in Hwf.
-  apply andb_true_iff in Hwf. destruct Hwf as [Hnd Hc]. unfold counts_okb in Hc.
-  apply andb_true_iff in Hc. destruct Hc as [Hc Hcnt].
-  apply andb_true_iff in Hc. destruct Hc as [Hlen Hlt].
-  apply nodupb_NoDup in Hnd. apply Nat.eqb_eq in Hlen.
-  simpl. unfold dict_ok. repeat split.
-  - exact Hnd.
-  - exact Hlen.
-  - apply dec_dict_in; assumption.
-  - intros k Hk. simpl decode.
-    etransitivity; [| exact (tag_occ e k Hnd Hk idx nulls Hn Hlt)].
-    rewrite forallb_forall in Hcnt. apply Z.eqb_eq. apply Hcnt. apply in_seq. lia.
-  - exact Hfresh.
-Qed.
-
-(* non-vacuity: a leg with a constant, a dictionary and a plain column *)
+(* non-vacuity: two dictionaries sharing keys (one with a null slot), a
+   constant with a null slot and a plain column with a null slot *)
 Example good_cols_example :
-  good_cols [] [CConst (KStr (hex "61")) 2 []; CDictStr [hex "62"; hex "63"] [2; 1] [0; 1; 0]%nat []; CStr [hex "61"; hex "64"] []].
-Proof.
-  simpl. repeat split; try reflexivity.
-  - repeat constructor; simpl; intuition discriminate.
-  - intros v [H | [H | [H | []]]]; subst; eexists; split; try reflexivity; simpl; auto.
-  - intros k Hk. destruct k as [|[|k]]; simpl in *; try reflexivity; lia.
-  - intros s [H | [H | []]]; subst; reflexivity.
-Qed.
+  Forall good_col [CDictStr [hex "61"; hex "62"] [2; 1] [0; 1; 0; 0]%nat [false; false; false; true];
+                   CDictStr [hex "61"; hex "62"] [1; 1] [0; 1]%nat [];
+                   CConst (KStr (hex "61")) 2 [false; true]; CStr [hex "61"; []] [false; true]].
+Proof. repeat constructor. Qed.
 
-(* ---- where the code leaves the sequential semantics (each is replayed on a real lake) *)
+(* ---- where the code still leaves the sequential semantics (open findings;
+   each is replayed on a real lake by the harness) *)
 
 Definition disagrees (cols : list col) : Prop :=
   match v_count_by cols with
   | None => True                                                      (* the query dies *)
   | Some st => exists v, row_count st v <> occ v (decode_all cols)
   end.
-
-(* two objects whose dictionaries share a key: the later count overwrites *)
-Theorem count_by_refuted_dict_overwrites :
-  exists cols, Forall (fun c => col_wfb c = true) cols /\ disagrees cols.
-Proof.
-  exists [CDictStr [hex "61"; hex "62"] [2; 1] [0; 1; 0]%nat []; CDictStr [hex "61"; hex "62"] [1; 1] [0; 1]%nat []].
-  split; [repeat constructor|]. exists (VStr (hex "61")). vm_compute. discriminate.
-Qed.
-
-(* a null string in a plain string column is counted as "" *)
-Theorem count_by_refuted_null_string :
-  exists cols, Forall (fun c => col_wfb c = true) cols /\ disagrees cols.
-Proof.
-  exists [CStr [hex "61"; []] [false; true]].
-  split; [repeat constructor|]. exists VNullStr. vm_compute. discriminate.
-Qed.
 
 (* any non-string kind: panic *)
 Theorem count_by_refuted_nonstring_panics :
@@ -421,6 +389,12 @@ Proof.
   replace ((a + two63) mod two64 - two63 + x + two63) with ((a + two63) mod two64 + x) by ring.
   rewrite Zplus_mod_idemp_l. replace (a + two63 + x) with (a + x + two63) by ring. reflexivity.
 Qed.
+
+Lemma wrap64_add_r a x : wrap64 (a + wrap64 x) = wrap64 (a + x).
+Proof. rewrite Z.add_comm, wrap64_add_l, Z.add_comm. reflexivity. Qed.
+
+Lemma wrap64_add_l2 a x : wrap64 (wrap64 a + x) = wrap64 (a + x).
+Proof. apply wrap64_add_l. Qed.
 
 Definition zsum (l : list Z) : Z := fold_right Z.add 0 l.
 
@@ -472,6 +446,21 @@ Proof.
   destruct v as [| t z | | | | |]; try exact IH. destruct t; try exact IH. exfalso. apply (H z). reflexivity.
 Qed.
 
+Lemma zsum_dec_const_int z n : forall nulls,
+  zsum (ints_of (dec_const (KNum NInt z) n nulls)) = z * (Z.of_nat n - nullcount n nulls).
+Proof.
+  induction n as [|m IH]; intro nulls; [simpl; lia|].
+  rewrite Nat2Z.inj_succ. cbn -[Z.add Z.sub Z.mul Z.of_nat].
+  destruct (hd false nulls); cbn -[Z.add Z.sub Z.mul Z.of_nat]; rewrite IH; lia.
+Qed.
+
+Lemma wrap64_mul_l z k : wrap64 (wrap64 z * k) = wrap64 (z * k).
+Proof.
+  unfold wrap64. f_equal.
+  replace (((z + two63) mod two64 - two63) * k + two63) with ((z + two63) mod two64 * k + (two63 - two63 * k)) by ring.
+  rewrite Zplus_mod, Zmult_mod_idemp_l, <- Zplus_mod. f_equal. ring.
+Qed.
+
 Lemma ints_dec_const v n : forall nulls, (forall t z, v <> KNum t z) -> ints_of (dec_const v n nulls) = [].
 Proof.
   induction n as [|m IH]; intros nulls H; simpl; [reflexivity|].
@@ -479,17 +468,17 @@ Proof.
     destruct (hd false nulls); simpl; apply IH; exact H.
 Qed.
 
-(* The class on which Sum is right: plain int64 vectors (any null mask) and
-   the columns that hold no number at all (strings, missing fields), which both
-   runtimes skip.  Not in the class: constants (Sum ignores vector.Const),
-   floats (ignored), uint64 (added as int64 and the result is always typed
-   int64), other widths/durations (result type), dictionaries of numbers
-   (correct in the code, but not covered by this theorem). *)
+(* The class on which Sum is right: plain int64 vectors and int64 constants
+   (any null mask) and the columns that hold no number at all (strings, missing
+   fields), which both runtimes skip.  Not in the class: floats (ignored),
+   uint64 (added as int64 and the result is always typed int64), other
+   widths/durations (result type), dictionaries of numbers (correct in the
+   code, checked by the correspondence, but not covered by this theorem). *)
 Definition sum_good (c : col) : Prop :=
   match c with
   | CNum NInt vals nulls => nulls_zero vals nulls
   | CStr _ _ | CDictStr _ _ _ _ | CMissing _ => True
-  | CConst (KStr _) _ _ | CConst KNullV _ _ => True
+  | CConst (KStr _) _ _ | CConst KNullV _ _ | CConst (KNum NInt _) _ _ => True
   | _ => False
   end.
 
@@ -500,7 +489,12 @@ Proof.
   - rewrite ints_dec_str. simpl. f_equal. lia.
   - destruct t; try contradiction. simpl. rewrite sum_vals_spec, ints_dec_num by exact H. reflexivity.
   - rewrite ints_dec_dict_str. simpl. f_equal. lia.
-  - destruct v; try contradiction; rewrite ints_dec_const by (intros; discriminate); simpl; f_equal; lia.
+  - destruct v as [s0 | t z | |]; try contradiction.
+    + rewrite ints_dec_const by (intros; discriminate). simpl. f_equal. lia.
+    + destruct t; try contradiction. simpl is_intlike. cbv iota.
+      rewrite zsum_dec_const_int. rewrite wrap64_add.
+      rewrite <- (wrap64_add_r T (wrap64 z * _)). rewrite wrap64_mul_l. rewrite wrap64_add_r. reflexivity.
+    + rewrite ints_dec_const by (intros; discriminate). simpl. f_equal. lia.
   - rewrite ints_repeat by (intros; discriminate). simpl. f_equal. lia.
 Qed.
 
@@ -527,14 +521,9 @@ Proof.
 Qed.
 
 Example sum_good_example :
-  Forall sum_good [CNum NInt [5; 0; -7] [false; true; false]; CMissing 2; CStr [hex "61"] []] /\
-  ints_of (decode_all [CNum NInt [5; 0; -7] [false; true; false]; CMissing 2; CStr [hex "61"] []]) <> [].
+  Forall sum_good [CNum NInt [5; 0; -7] [false; true; false]; CMissing 2; CConst (KNum NInt 5) 3 [false; true]; CStr [hex "61"] []] /\
+  ints_of (decode_all [CNum NInt [5; 0; -7] [false; true; false]; CMissing 2; CConst (KNum NInt 5) 3 [false; true]; CStr [hex "61"] []]) <> [].
 Proof. split; [repeat constructor; simpl; intuition discriminate | vm_compute; discriminate]. Qed.
-
-(* a column holding the same int64 in every record is a vector.Const: ignored *)
-Theorem sum_refuted_const_ignored :
-  seq_sum_int (decode_all [CConst (KNum NInt 5) 3 []]) = Some 15 /\ v_sum [CConst (KNum NInt 5) 3 []] = 0.
-Proof. split; reflexivity. Qed.
 
 (* no number at all: the sequential result is null, the vector result 0 *)
 Theorem sum_refuted_no_values :
@@ -548,19 +537,22 @@ Proof. reflexivity. Qed.
 
 (* ---------------------------------------------------------------- planner *)
 
-Theorem vectorized_only_with_all_vectors : forall sh par nobj nvec,
-  vectorized sh par nobj nvec = true ->
-  (1 < par)%N /\ (0 < nobj)%N /\ nvec = nobj /\ sh <> SOther.
+Theorem vectorized_only_with_all_vectors : forall sh par nobj nvec filt sliced,
+  vectorized sh par nobj nvec filt sliced = true ->
+  (1 < par)%N /\ (0 < nobj)%N /\ nvec = nobj /\ sh <> SOther /\ filt = false /\ sliced = false.
 Proof.
-  intros sh par nobj nvec H. unfold vectorized in H.
+  intros sh par nobj nvec filt sliced H. unfold vectorized in H.
   repeat (apply andb_true_iff in H; destruct H as [H ?]).
-  repeat split; try lia. destruct sh; [discriminate | discriminate | discriminate].
+  repeat split; try lia.
+  all: try (destruct sh; discriminate).
+  all: try (destruct filt; simpl in *; [discriminate | reflexivity]).
+  all: try (destruct sliced; simpl in *; [discriminate | reflexivity]).
 Qed.
 
-Theorem not_vectorized_without_vectors : forall sh par nobj nvec,
-  (nvec < nobj)%N -> vectorized sh par nobj nvec = false.
+Theorem not_vectorized_without_vectors : forall sh par nobj nvec filt sliced,
+  (nvec < nobj)%N -> vectorized sh par nobj nvec filt sliced = false.
 Proof.
-  intros sh par nobj nvec H. unfold vectorized.
+  intros sh par nobj nvec filt sliced H. unfold vectorized.
   assert ((nvec =? nobj)%N = false) as -> by lia.
   rewrite andb_false_r. reflexivity.
 Qed.
